@@ -73,6 +73,42 @@ def build_circuit(spec):
     return c, objs
 
 
+def build_circuit_grown(spec):
+    """the same circuit built another way: an empty CircuitDAG() whose registers are added one by one through
+    add_emitter_register / add_photonic_register / add_classical_register, each only right before the first operation that
+    needs it (register numbering must be continuous, so lower registers are added first); registers no operation uses are
+    added at the end"""
+    c = CircuitDAG()
+    have = {"e": 0, "p": 0, "c": 0}
+    adders = {"e": c.add_emitter_register, "p": c.add_photonic_register, "c": c.add_classical_register}
+
+    def need(t, r):
+        while have[t] <= r:
+            adders[t]()
+            have[t] += 1
+
+    objs = []
+    for op in spec["ops"]:
+        k = op[0]
+        if k in ("g", "w"):
+            need(op[2], op[3])
+        elif k == "mz":
+            need(op[1], op[2])
+            need("c", op[3])
+        else:
+            need(op[1], op[2])
+            need(op[3], op[4])
+            if k in CLSC:
+                need("c", op[5])
+        o = make_op(op)
+        c.add(o)
+        objs.append(o)
+    for t, total in (("e", spec["ne"]), ("p", spec["np"]), ("c", spec["nc"])):
+        if total:
+            need(t, total - 1)
+    return c, objs
+
+
 def initial_state(init, n, backend):
     """(QuantumState for `backend`, textbook vector).  init = {"word": [...]} stabilizer state word|0..0>
     or {"haar": seed} (dm only): a generic pure state"""
@@ -224,7 +260,7 @@ ASPECTS = ["state", "order", "record_final"] + ["record_" + k for k in KINDS.val
 MAX_CANDIDATES = 256
 
 
-def run_case(inp, backend, finals=None, comp=None, circ=None):
+def run_case(inp, backend, finals=None, comp=None, circ=None, build=None):
     """returns {aspect: symptom or None} for one program on one backend, all three measurement settings.
     comp: compiler instance used for every compile of this case (default: a fresh one per compile);
     circ: (circuit, op objects) compiled by every run of this case (default: a fresh circuit per compile).
@@ -247,7 +283,7 @@ def run_case(inp, backend, finals=None, comp=None, circ=None):
 
     runs = [(0, None), (1, None)] + [("probabilistic", s) for s in inp.get("pseeds", [0])]
     for mode, seed in runs:
-        circuit, objs = build_circuit(spec) if circ is None else circ
+        circuit, objs = (build or build_circuit)(spec) if circ is None else circ
         v0 = R.ket0(n)
         ist = None
         if inp.get("init") is not None:
@@ -546,8 +582,8 @@ for _b in ("stabilizer", "dm"):
         bound="{N} seeded random programs (<=20 ops, <=5 qubits) + the 14 signature programs: the SAME circuit object is compiled by a "
               "stabilizer instance, a density-matrix instance, the same two instances again, two fresh instances and the first "
               "instances once more (each: modes 0, 1, 'probabilistic'), then 1-3 further operations are add()ed to the same object and "
-              "it is compiled again by the used and by fresh instances; every result is compared with the textbook run of the "
-              "program the object holds at that moment",
+              "it is compiled again by the used and by fresh instances, then a photon and an emitter register (and 4 operations on them) "
+              "are added and it is compiled again; every result is compared with the textbook run of the program the object holds at that moment",
         clause="for EVERY circuit both backends yield the textbook state - also for a circuit object that was compiled before (by "
                "either backend) or extended after a compilation")
 def circuit_reuse_case(inp):
@@ -571,12 +607,34 @@ def circuit_reuse_case(inp):
             bad = _first_bad(run_case(inp2, backend, comp=comp, circ=(circuit, objs)))
             if bad:
                 return f"after adding {ext} to the compiled circuit object ({backend}, {what}): {bad}"
+        # registers added to the compiled object: a new photon register moves every emitter one place up (photons are indexed first)
+        circuit.add_photonic_register()
+        circuit.add_emitter_register()
+        np3, ne3 = spec["np"] + 1, spec["ne"] + 1
+        more = [["w", ["H", "P"], "p", np3 - 1], ["cx", "p", np3 - 1, "e", ne3 - 1], ["g", "X", "e", 0], ["cz", "e", 0, "p", 0]]
+        for op in more:
+            o = make_op(op)
+            circuit.add(o)
+            objs.append(o)
+        inp3 = dict(inp, prog=dict(spec, ne=ne3, np=np3, ops=inp2["prog"]["ops"] + more))
+        for backend, comp, what in (("stabilizer", a_s, "used instance"), ("dm", a_d, "used instance"), ("dm", None, "fresh instance")):
+            bad = _first_bad(run_case(inp3, backend, comp=comp, circ=(circuit, objs)))
+            if bad:
+                return f"after adding a photon and an emitter register (+ {more}) to the compiled circuit object ({backend}, {what}): {bad}"
     return None
 
 
+@S.item("compile.circuit_built_by_growing_registers", site="graphiq.backends.compiler_base:CompilerBase.compile ; graphiq.circuit.circuit_dag:CircuitDAG._add_reg_if_absent",
+        bound="{N} seeded random programs (<=20 ops, <=5 qubits) + the 14 signature programs, each built as CircuitDAG() + add_*_register() calls interleaved with "
+              "add() (a register appears right before its first use); both backends, modes 0, 1 and 'probabilistic'",
+        clause="for EVERY circuit both backends yield the textbook state - however the circuit object was built")
+def grown_case(inp):
+    return _first_bad(run_case(inp, "stabilizer", build=build_circuit_grown)) or _first_bad(run_case(inp, "dm", build=build_circuit_grown))
+
+
 @S.item("StabilizerCompiler.compile.state_many_registers", site=_SITE_S,
-        bound="{N} seeded random programs of <=43 ops on 12..15 qubits with 11..12 photon registers and 1..3 emitters (every 4th: 11 emitters "
-              "and 1..2 photons); registers number 10 and the highest one are always used; 2 classical registers, <=6 measuring ops; "
+        bound="{N} seeded random programs of <=51 ops on 12..15 qubits with 11..12 photon registers and 1..3 emitters (every 4th: 11 emitters "
+              "and 1..2 photons); registers number 1, 10 and the highest one are always used (1 and 10 also in common two-qubit gates); 2 classical registers, <=6 measuring ops; "
               "modes 0, 1 and 'probabilistic'",
         clause=_C_STATE + " - register numbers with two digits, >= 3 emitters")
 def many_registers_stab(inp):
@@ -722,7 +780,9 @@ def domain_many(tier, seed):
         # make sure registers >= 10 are really used
         t = "p" if np_ > ne else "e"
         hi = max(ne, np_) - 1
-        p["ops"] = [["g", "H", t, hi], ["cx", t, hi, "e" if t == "p" else "p", 0], ["w", ["P", "H"], t, 10]] + p["ops"]
+        # ... and registers 1 and 10 (labels "p1" / "p10") meet in two-qubit gates with one-qubit gates around them
+        p["ops"] = ([["g", "H", t, hi], ["cx", t, hi, "e" if t == "p" else "p", 0], ["w", ["P", "H"], t, 10], ["g", "H", t, 1], ["cx", t, 1, t, 10],
+                     ["g", "P", t, 1], ["g", "H", t, 10]] + p["ops"] + [["g", "X", t, 10], ["cz", t, 10, t, 1], ["g", "H", t, 1], ["g", "Y", t, 10]])
         out.append({"prog": p, "pseeds": _pseeds(seed, 13 * i, 1)})
     return out, N
 
@@ -900,6 +960,8 @@ def run(tier, seed):
     cre, N = domain_circuit_reuse(tier, seed)
     S.items["compile.circuit_object_reuse"].bound = S.items["compile.circuit_object_reuse"].bound.replace("{N}", str(N))
     S.map("compile.circuit_object_reuse", cre, nontrivial=nt)
+    S.items["compile.circuit_built_by_growing_registers"].bound = S.items["compile.circuit_built_by_growing_registers"].bound.replace("{N}", str(N))
+    S.map("compile.circuit_built_by_growing_registers", cre, nontrivial=nt)
     many, N = domain_many(tier, seed)
     S.items["StabilizerCompiler.compile.state_many_registers"].bound = S.items["StabilizerCompiler.compile.state_many_registers"].bound.replace("{N}", str(N))
     S.map("StabilizerCompiler.compile.state_many_registers", many, nontrivial=nt, chunksize=1)
